@@ -255,6 +255,23 @@ func (m *ImplCmd) execCmd(tk []string) (obs string) {
 		// so this is used with destinations placed under src
 		destBase = srcBase
 	}
+	// the same directory can be named in several ways; a base directory given with a trailing
+	// or a doubled separator is the same base (op-line key base=1..3; the model ignores it)
+	styleBase := func(b string) string {
+		if strings.HasPrefix(b, "http") {
+			return b
+		}
+		switch v, _ := kvGet(tk, "base"); v {
+		case "1":
+			return b + "/"
+		case "2":
+			return filepath.Dir(b) + "//" + filepath.Base(b)
+		case "3":
+			return filepath.Dir(b) + "/./" + filepath.Base(b) + "/"
+		}
+		return b
+	}
+	srcBase, destBase = styleBase(srcBase), styleBase(destBase)
 	outPath := filepath.Join(m.root, "textout.txt")
 	os.Remove(outPath)
 	textOut := outPath
@@ -482,6 +499,15 @@ func (m *ImplCmd) Exec(line string) string {
 		return "ok"
 	case "resetfile":
 		return m.lib.Exec("reset")
+	case "dangle":
+		// a name that globbing lists but that cannot be opened: a symlink to nowhere
+		p := filepath.Join(m.root, tk[1])
+		os.MkdirAll(filepath.Dir(p), 0755)
+		os.Remove(p)
+		if err := os.Symlink(filepath.Join(m.root, "no-such-target.wsp"), p); err != nil {
+			return "harness-error " + err.Error()
+		}
+		return "ok"
 	case "fdisk":
 		hdr, _ := strconv.Atoi(tk[2])
 		b, err := ioutil.ReadFile(filepath.Join(m.root, tk[1]))
